@@ -119,6 +119,7 @@ type Exec struct {
 	pathCleanDone       bool
 	concatDone          bool
 	indexedAccess       bool
+	canonAxiomDone      bool
 	reachCount          map[string]int
 	pathAxiomsDone      bool
 	assignSrcType       types.Type
